@@ -25,33 +25,51 @@ def levelType : String → Option String
 
 def gThr (k t x : Nat) : Nat := mask64 (x * 3 + k * 100 + t + 1)
 
+/-- `Iterator::nth(d)` / `DoubleEndedIterator::nth_back(d)` by their provided definitions: `d`
+items are taken and dropped, the next one is returned (`None` as soon as the iterator is empty) -/
+def nthVia {S A : Type} (next : S → M (Option A × S)) : Nat → S → M (Option A × S)
+  | 0, s => next s
+  | d + 1, s => do
+    let (a, s') ← next s
+    match a with
+    | none => pure (none, s')
+    | some _ => nthVia next d s'
+
+/-- one pattern character: `F` = next, `B` = next_back, `1`..`9` = nth(d), `a`..`i` = nth_back(d);
+result: (from the back?, number of skipped items) -/
+def patStep (c : Char) : Bool × Nat :=
+  if c = 'B' then (true, 0)
+  else if '1' ≤ c ∧ c ≤ '9' then (false, c.toNat - 48)
+  else if 'a' ≤ c ∧ c ≤ 'i' then (true, c.toNat - 96)
+  else (false, 0)
+
 /-- drain one inner iterator along `ipat` (cycled), updating memory at the yielded addresses;
 the `t`-th position is tracked the way a client does: front and back counters -/
 def thrInner (cfg : Cfg) (k vl : Nat) : Nat → List Char → List Char → Nth → Nat → Nat → Array Nat → M (Array Nat)
   | 0, _, _, _, _, _, _ => .error .fuel
   | fuel + 1, ipat, cur, it, f, b, mem => do
     let cur := if cur.isEmpty then ipat else cur
-    let back := cur.head? = some 'B'
-    let (a, it') ← if back then it.nextBack cfg else it.next cfg
+    let (back, d) := patStep (cur.head?.getD 'F')
+    let (a, it') ← if back then nthVia (·.nextBack cfg) d it else nthVia (·.next cfg) d it
     match a with
     | none => pure mem
     | some addr =>
       let off := (addr - cfg.base) / cfg.es
-      let t := if back then vl - 1 - b else f
+      let t := if back then vl - 1 - b - d else f + d
       let mem' := mem.set! off (gThr k t (mem[off]?.getD 0))
-      thrInner cfg k vl fuel ipat cur.tail it' (if back then f else f + 1) (if back then b + 1 else b) mem'
+      thrInner cfg k vl fuel ipat cur.tail it' (if back then f else f + d + 1) (if back then b + d + 1 else b) mem'
 
 def thrOuter (cfg : Cfg) (al vl : Nat) (ipat : List Char) : List Char → Vecs → Nat → Nat → Array Nat → List String → M (Array Nat × List String)
   | [], _, _, _, mem, ys => pure (mem, ys.reverse)
   | c :: rest, it, f, b, mem, ys => do
-    let back := c = 'B'
-    let (v, it') ← if back then it.nextBack cfg else it.next cfg
+    let (back, d) := patStep c
+    let (v, it') ← if back then nthVia (·.nextBack cfg) d it else nthVia (·.next cfg) d it
     match v with
     | none => thrOuter cfg al vl ipat rest it' f b mem ("none" :: ys)
     | some inner =>
-      let k := if back then al - 1 - b else f
+      let k := if back then al - 1 - b - d else f + d
       let mem' ← thrInner cfg k vl (vl + 2) ipat [] inner 0 0 mem
-      thrOuter cfg al vl ipat rest it' (if back then f else f + 1) (if back then b + 1 else b) mem' (toString k :: ys)
+      thrOuter cfg al vl ipat rest it' (if back then f else f + d + 1) (if back then b + d + 1 else b) mem' (toString k :: ys)
 
 def cmdTraits (ws : List String) : Option String :=
   match ws with
